@@ -875,6 +875,19 @@ impl<'a> Parser<'a> {
             }
         }
 
+        // Index signature: [key: string]: T; (also static / readonly)
+        if self.check(&TokenKind::LBracket) && self.bracket_starts_index_signature() {
+            self.advance(); // consume [
+            self.parse_identifier()?;
+            self.require_token(&TokenKind::Colon)?;
+            self.parse_type_annotation()?;
+            self.require_token(&TokenKind::RBracket)?;
+            self.require_token(&TokenKind::Colon)?;
+            self.parse_type_annotation()?;
+            self.expect_semicolon()?;
+            return Ok(None);
+        }
+
         // Check for async method (`async() {}` is a method called async)
         let is_async = self.check(&TokenKind::Async) && !self.peek_ends_member_name();
         if is_async {
